@@ -134,9 +134,30 @@ def mval(model, t):
     return None
 
 def solve(pc, extra=(), timeout_ms=30000):
-    s = z3.Solver(); s.set('timeout', timeout_ms); s.add(*pc); s.add(*extra)
-    t0 = time.time(); r = s.check(); dt = time.time() - t0
+    """decide pc /\\ extra.  z3 is tried in stages (short run, then other arithmetic configurations / seeds): a query that one
+    configuration wanders off on is usually decided at once by another.  `unknown` only after the whole budget is used."""
+    t0 = time.time()
+    stages = [(min(timeout_ms, 4000), {}), (min(timeout_ms, 6000), {'smt.arith.solver': 2, 'smt.random_seed': 3}),
+              (min(timeout_ms, 6000), {'smt.arith.solver': 6, 'smt.random_seed': 11, 'smt.phase_selection': 5}), (timeout_ms, {'smt.random_seed': 29})]
+    r = z3.unknown; s = None
+    for i, (to, params) in enumerate(stages):
+        s = z3.Solver() if i != 2 else z3.SolverFor('QF_UFNIRA') if False else z3.Solver()
+        s.set('timeout', int(to))
+        for k, v in params.items():
+            try: s.set(k, v)
+            except Exception: pass
+        s.add(*pc); s.add(*extra)
+        r = s.check()
+        if r != z3.unknown: break
+        if os.environ.get('VERIF_SLOWLOG'):
+            with open(os.environ['VERIF_SLOWLOG'], 'a') as f: f.write(f'; stage {i} unknown after {to} ms\n' + s.to_smt2() + '\n; ----\n')
+    dt = time.time() - t0
     return r, (s.model() if r == z3.sat else None), dt
+
+def solve_once(pc, extra=(), timeout_ms=1500):
+    s = z3.Solver(); s.set('timeout', timeout_ms); s.add(*pc); s.add(*extra)
+    t0 = time.time(); r = s.check()
+    return r, (s.model() if r == z3.sat else None), time.time() - t0
 
 def smt2_of(pc, extra=()):
     s = z3.Solver(); s.add(*pc); s.add(*extra); return '(set-logic ALL)\n' + s.to_smt2()
@@ -185,7 +206,7 @@ class Obligations:
             s.inconclusive.append({'obligation': name, 'reason': 'solver unknown/timeout'}); return None
         spec = None
         for pref in prefer:          # look for a small / canonical counterexample first (does not change the verdict)
-            r2, m2, dt2 = solve(pc, [neg] + list(pref), 5000); s.solver_time += dt2
+            r2, m2, dt2 = solve_once(pc, [neg] + list(pref), 1500); s.solver_time += dt2
             if r2 == z3.sat: model = m2; break
         if replay is not None:
             try: spec = replay(model)
@@ -246,6 +267,8 @@ def pmap(fn, items, tier, jobs=None):
         ctx = multiprocessing.get_context('fork')
         with ctx.Pool(min(jobs, len(items))) as pool:
             res = pool.map(_worker, list(enumerate(items)), chunksize=1)
+    if os.environ.get('VERIF_PROFILE'):
+        for d in sorted(res, key=lambda d: -d['wall'])[:12]: log(f"  [profile] {d['wall']:.1f}s paths={d['paths']} obl={d['n']} solver={d['solver_time']:.1f}s {d['item']}")
     return merge(res), res
 
 def new_engine(mir, extra_models=()):
@@ -305,6 +328,7 @@ def finish(prop, tier, seed, merged, t0, level='model_checking', bounds=None, ou
                 if 'equals' in exp: return o != exp['equals']
                 if 'not_panic' in exp: return o.startswith(('PANIC', 'HANG', 'CRASH'))
                 if 'one_of' in exp: return o not in exp['one_of']
+                if 'suffix' in exp: return not o.endswith(exp['suffix'])
                 if 'prefix' in exp: return not o.startswith(exp['prefix'])
             return o != exp
         v['native'] = {'dev': d[:300], 'release': r[:300]}
